@@ -679,6 +679,15 @@ theorem spec1 (l N : ℕ) (hl : l ≤ N) :
         rw [dftSum_congr _ (fun _ => 0) 1 N (fun n hn => by simp; intro; omega), dftSum_zero]
       rw [z]; simp [h1, e]
 
+/-- at the bin where `a q = 1` the kernel and the geometric weight cancel -/
+theorem dftSum_root_bin (wt : ℕ → K) (a q : K) (haq : a * q = 1) (N : ℕ) :
+    dftSum (fun n => wt n * a ^ n) q N = dftSum wt 1 N := by
+  induction N with
+  | zero => rfl
+  | succ N ih =>
+    simp only [dftSum, ih, powK_eq, one_pow, mul_one]
+    rw [mul_assoc, ← mul_pow, haq, one_pow, mul_one]
+
 section dftsound
 variable [DecidableEq K]
 
@@ -705,6 +714,7 @@ theorem dft_steplike_sound (numeric : Bool) (t : CTerm K) (N : ℕ) (q : K) (hq 
     rcases hb with ⟨hb, rfl⟩ | ⟨d, hb, rfl⟩ <;> simp [hb]
   have hv' : (if numeric = true ∧ N ≤ l then some 0 else
       (if t.a = 1 then (if q = 1 then dftGeoSpecial t.p l N else dftGeoGeneral t.p l N q 1)
+        else if numeric = true ∧ powK t.a N = 1 ∧ t.a * q = 1 then dftGeoSpecial t.p l N
         else dftGeoGeneral t.p l N (t.a * q) (powK t.a N)).map (fun v => t.coef * v)) = some v := by
     rcases hb with ⟨hb, rfl⟩ | ⟨d, hb, rfl⟩ <;> simpa [dftTerm, hb] using hv
   clear hv hl'
@@ -756,7 +766,25 @@ theorem dft_steplike_sound (numeric : Bool) (t : CTerm K) (N : ℕ) (q : K) (hq 
             dftSum_congr _ _ _ _ (fun n _ => by split_ifs <;> simp)
           rw [← hw, e, this]; ring
         · simp [hp] at hw
-    · simp only [ha, ↓reduceIte, dftGeoGeneral] at hw
+    · simp only [ha, ↓reduceIte] at hw
+      by_cases hr : numeric = true ∧ powK t.a N = 1 ∧ t.a * q = 1
+      · rw [if_pos hr] at hw
+        obtain ⟨_, _, haq⟩ := hr
+        simp only [dftGeoSpecial] at hw
+        rcases hp : t.p with _ | _ | p
+        · simp only [hp, Option.some.injEq, natK_eq] at hw
+          rw [← hw, ← spec0 l N hl, ← dftSum_root_bin _ t.a q haq N]
+          exact dftSum_congr _ _ _ _ (fun n _ => by split_ifs <;> simp)
+        · simp only [hp, Option.some.injEq, natK_eq] at hw
+          have := spec1 (K := K) l N hl
+          rw [← dftSum_root_bin _ t.a q haq N] at this
+          have e : dftSum (fun n : ℕ => (n : K) ^ (0 + 1) * if l ≤ n then t.a ^ n else 0) q N
+              = dftSum (fun n : ℕ => (if l ≤ n then (n : K) else 0) * t.a ^ n) q N :=
+            dftSum_congr _ _ _ _ (fun n _ => by split_ifs <;> simp)
+          rw [← hw, e, div_eq_iff h2, ← this]; ring
+        · simp [hp] at hw
+      rw [if_neg hr] at hw
+      simp only [dftGeoGeneral] at hw
       by_cases h1 : (1 : K) - t.a * q = 0
       · simp [h1] at hw
       · simp only [h1, ↓reduceIte] at hw
